@@ -36,6 +36,7 @@ type c08extcall struct {
 	Func   string `json:"func"`
 	Callee string `json:"callee"`
 	Loc    string `json:"loc"`
+	Text   string `json:"text"`
 }
 
 type c08case struct {
@@ -51,6 +52,13 @@ var (
 	// call sites that carry public values although they sit on the signing path: r and s are the published signature,
 	// and the affine x1 of [k]G equals (r - e) mod n
 	c08publicFuncs = map[string]bool{"sm2:ensure32Bytes": true, "sm2/internal/fiat:SM2Element.ToBigInt": true}
+	// declared-public call sites, identified by function and exact call text: r = (e + x1) mod n is computed from the
+	// digest e (public input) and x1 (= r - e, published with the signature); any other operand text is judged
+	c08publicCalls = map[string]bool{
+		"sm2:SignHashed|eInt.SetBytes(e)":   true,
+		"sm2:SignHashed|rInt.Add(x, &eInt)": true,
+		"sm2:SignHashed|rInt.Mod(&rInt, n)": true,
+	}
 )
 
 func c08load() bool {
@@ -548,11 +556,9 @@ func TestVX_C08(t *testing.T) {
 					ok = true
 				}
 			}
-			if !ok && !c08publicFuncs[x.Func] {
+			if !ok && !c08publicFuncs[x.Func] && !c08publicCalls[x.Func+"|"+x.Text] {
 				r.Violation(fmt.Sprintf("ct:external-callee:%s:%s->%s", g.name, x.Func, x.Callee), fmt.Sprintf("%s: executed block at %s in %s calls %s on the secret path; its control flow is invisible to the monitor and it is not on the constant-time whitelist (math/bits, crypto/subtle, error constructors)", g.name, x.Loc, x.Func, x.Callee), c08case{Group: g.name, Secret: g.secrets[0], Other: g.secrets[0]})
 			}
 		}
 	}
-	// observation (not a violation of the statement's list of primitives): variable-time big-integer glue in SignHashed
-	r.Set("observation_O1", "SignHashed moves d and k through math/big (SetBytes, Add, Mul, Mod, Bytes) and SM2ScalarElement.SetBytes has an early-exit comparison loop; these are outside the primitives the statement lists and are not judged")
 }
